@@ -1,6 +1,6 @@
 (* C15 - AV1 ITU-T T.35 wrapping round-trips every RPU of every size. *)
 From Coq Require Import List NArith Lia.
-From DV Require Import Outcome Bits BitIO Av1 Av1Proofs.
+From DV Require Import Outcome Bits BitIO Av1 Av1Proofs Av1RT.
 From DVgen Require Import Consts_gen.
 Import ListNotations.
 Open Scope N_scope.
@@ -59,6 +59,18 @@ Example C15_example_256 :
   is_ok (convert_regular_rpu_to_av1_payload (25 :: repeat 7 255 ++ [128])) = true.
 Proof. vm_compute. reflexivity. Qed.
 
+(* THE CONTAINER ROUND TRIP: every RPU (0x19 ... 0x80, any trailing zero bytes, up to 65791 payload
+   bytes) wrapped into the ITU-T T.35 / EMDF container and unwrapped again comes back byte for byte
+   (without its trailing zeros), whatever the payload bytes are - fixed header fields, the
+   variable_bits size in one or two groups, the payload without emulation prevention, the
+   trailer and the alignment with 1 bits *)
+Theorem C15_av1_roundtrip : forall data out,
+  convert_regular_rpu_to_av1_payload data = Ok out -> forallb is_byte data = true ->
+  N.of_nat (List.length (strip_trailing_zeros data)) <= 65792 ->
+  forall prof, convert_av1_rpu_payload_to_regular prof out = Ok (strip_trailing_zeros data).
+Proof. exact av1_roundtrip. Qed.
+
 Print Assumptions C15_varbits.
+Print Assumptions C15_av1_roundtrip.
 Print Assumptions C15_varbits5.
 Print Assumptions C15_header_consts.
